@@ -368,7 +368,7 @@ def agg_spec(rng: random.Random, name: str, maxlen: int = 8) -> dict:
         r = rng.random()
         if r < 0.3 or (not spec["srcs"][0] and r < 0.7):
             # (a default is handed back AS IS - also one that happens to be awaitable, or merely looks like it)
-            spec["params"]["default"] = rng.choice([["item", 1, "default"], ["raw", ["L", 5]], ["none"], ["raw", ["Aw", 9]], ["raw", ["La", 9]]])
+            spec["params"]["default"] = rng.choice([["item", 1, "default"], ["raw", ["L", 5]], ["none"], ["raw", ["Aw", 9]], ["raw", ["La", 9]], ["raw", ["An", 9]], ["raw", ["Op", 9]]])
         return spec
     if name in ("list", "tuple"):
         spec["srcs"] = [keys_seq(rng, maxlen)]
